@@ -17,6 +17,8 @@ func mailbox.validMID(mid) (r)
   props C12 C10
   ensures safe: r ==> SafeName(mid)
   ensures rejects: (len(mid) == 0 || mid == "." || mid == "..") ==> !r
+  # a stored message must be listed: hidden names (leading dot) are never loaded by LoadMessageDir
+  ensures never-a-hidden-name: r ==> mid[0] != '.'
 
 ghost var gTmp string
 ghost var gWriteDone bool
@@ -152,8 +154,12 @@ func mailbox.(*DirHandler).SetDeferred(h, MID) ()
 
 func mailbox.(*DirHandler).Prepare(h) (err)
   # (C02: a deferral lasts one session, so a repeated exchange offers the message again)
-  props C10 C02
+  props C10 C02 C11
   ensures fresh-deferrals: h.deferred != nil && (forall k :: !haskeyid(h.deferred, k))
+  # starting a session creates folders only: it never publishes, renames or removes message files
+  # (a leftover temporary file is an incomplete write, not a message)
+  forbid os. except os.MkdirAll
+  forbid ioutil.
 
 ghost var gEntryName string
 ghost var gEntryAt int
